@@ -35,7 +35,7 @@ def inject(rng, text, force_kind=None):
                        "redecl_as_const", "redecl_bank_signal", "dup_register", "assign_twice", "assign_twice_builtin",
                        "read_undeclared", "assign_undeclared", "assign_bank_out", "assign_builtin_out", "assign_const",
                        "assign_preamble_const", "const_reads_wire", "default_reads_wire", "partial_disabled_ok",
-                       "assign_twice_in_chain", "assign_twice_in_chain", "bad_bank_name", "partial_shared", "partial_const_enable", "partial_const_enable"])
+                       "assign_twice_in_chain", "assign_twice_in_chain", "bad_bank_name", "partial_shared", "partial_const_enable", "partial_const_enable", "dup_bank_signal", "dup_bank_signal"])
 
     if force_kind is not None:
         kind = force_kind
@@ -120,6 +120,27 @@ def inject(rng, text, force_kind=None):
             cands += [(["mem_input = 0x1234;"], "mem_input")]
         part, name = rng.choice(cands)
         return add(*(off + part)), "PartialFixedInput", name, kind
+    if kind == "dup_bank_signal" and banks:
+        # a second bank whose input (or output) prefix letter and one register name coincide with an existing
+        # bank's: the generated wire x_r (or Y_r) would have two registers behind it
+        b = rng.choice(banks)
+        regs_ = re.findall(r"(\w+) : (\d+) =", b.group(3))
+        used = set(m_.group(1) for m_ in banks) | set(m_.group(2) for m_ in banks) | {"p", "P"}
+        free_lo = [c for c in "abcdefghijklmnoqrstuvwxyz" if c not in used]
+        free_up = [c for c in "ABCDEFGHIJKLMNOQRSTUVWXYZ" if c not in used]
+        if regs_ and free_lo and free_up:
+            rname, rw = rng.choice(regs_)
+            w2 = rng.choice([int(rw), 1, 8, 64, max(1, int(rw) - 1), max(1, int(rw) // 2)])
+            if rng.random() < 0.5:
+                up = rng.choice(free_up)
+                nb, sig = b.group(1) + up, "%s_%s" % (b.group(1), rname)
+                # the new register's output is read where its declared width matters
+                extra = ["wire dupr9 : %d;" % w2, "dupr9 = (%s_%s ^ 0b%s);" % (up, rname, "1" * w2)] if w2 <= 128 else []
+            else:
+                li2 = rng.choice(free_lo)
+                nb, sig = li2 + b.group(2), "%s_%s" % (b.group(2), rname)
+                extra = ["%s_%s = 0;" % (li2, rname)]
+            return add("register %s { %s : %d = 0; }" % (nb, rname, w2), *extra), "DoubleDeclaredRegisterOutWire", sig, kind
     if kind == "redecl_wire" and wires:
         w = rng.choice(wires)
         return add("wire %s : %d;" % (w, rng.choice([1, 8, 64]))), "RedeclaredWire", w, kind
@@ -271,7 +292,7 @@ def check(report, tier, seed):
     report.coverage["evaluations"] = len(cases)
     report.coverage["distinct_nontrivial"] = len(set(c["hcl"] for c in cases.values() if c["fault"] != "none"))
     report.coverage["rule"] = ("a correct random program (1-12, thorough up to 40 wires, banks, register file, memory) with exactly one injected driver fault "
-                               "of a known kind on a known name (26 fault classes incl. a partial component next to a port switched off by a constant-0 enable, a write port without data whose enable is one of 40 constant expressions (over-wide concatenations, division by zero, huge shifts; judged by the model only), a write port left with only the address it shares with the complete read port, malformed bank names, a name repeated within one chained assignment, over plain wires, constants incl. preamble ones, bank inputs/outputs, "
+                               "of a known kind on a known name (27 fault classes incl. a second bank sharing a prefix letter and a register name with another one, a partial component next to a port switched off by a constant-0 enable, a write port without data whose enable is one of 40 constant expressions (over-wide concatenations, division by zero, huge shifts; judged by the model only), a write port left with only the address it shares with the complete read port, malformed bank names, a name repeated within one chained assignment, over plain wires, constants incl. preamble ones, bank inputs/outputs, "
                                "stall/bubble, built-in inputs/outputs), or none; oracle 1: rejected with a diagnostic of that kind naming that wire / accepted "
                                "when fault-free; oracle 2: verdict, diagnostic multiset and compiled program equal the model's build_program")
     report.coverage["distribution"] = dict(stats, **{"fault_" + k2: v2 for k2, v2 in by.items()})
